@@ -67,3 +67,40 @@ Proof.
   - unfold en; simpl; lia.
   - vm_compute. tauto.
 Qed.
+
+(* a time point between grid points: the query on k-fold refined coordinates (k > 0) answers the
+   rational point q / k; on grid points it is the same query *)
+Definition scale_seg (k : Z) (s : seg) : seg := (k * st s, k * en s).
+Fixpoint overlapping_q (k q : Z) (l : list seg) : list seg :=
+  match l with
+  | [] => []
+  | s :: r => if k * st s >? q then []
+              else if (k * st s <=? q) && (q <=? k * en s) then s :: overlapping_q k q r else overlapping_q k q r
+  end.
+Theorem overlapping_scaled k q l :
+  overlapping q (map (scale_seg k) l) = map (scale_seg k) (overlapping_q k q l).
+Proof.
+  induction l as [|s l IH]; cbn [map overlapping overlapping_q]; [reflexivity|].
+  unfold overlaps. change (st (scale_seg k s)) with (k * st s). change (en (scale_seg k s)) with (k * en s).
+  destruct (k * st s >? q); [reflexivity|].
+  replace (k * en s >=? q) with (q <=? k * en s) by lia.
+  destruct ((k * st s <=? q) && (q <=? k * en s)); cbn [map]; now rewrite IH.
+Qed.
+Theorem overlapping_q_exact k q l s : 0 < k -> ssorted l ->
+  (In s (overlapping_q k q l) <-> In s l /\ k * st s <= q <= k * en s).
+Proof.
+  intros Hk. induction l as [|x l IH]; cbn [overlapping_q]; intro H; [simpl; tauto|].
+  apply ssorted_inv in H as [Hs F]. rewrite Forall_forall in F.
+  destruct (k * st x >? q) eqn:E.
+  - split; [intros []|]. intros [[->|Hin] Hb]; [lia|]. apply F, slt_st in Hin. nia.
+  - destruct ((k * st x <=? q) && (q <=? k * en x)) eqn:E2; cbn [In]; rewrite (IH Hs).
+    + split; [intros [->|[A B]]; [split; [now left | lia] | split; [now right | exact B]] | intros [[->|A] B]; [now left | right; tauto]].
+    + split; [intros [A B]; split; [now right | exact B] | intros [[->|A] B]; [lia | tauto]].
+Qed.
+Corollary overlapping_on_grid k t l : 0 < k -> overlapping_q k (k * t) l = overlapping t l.
+Proof.
+  intro Hk. induction l as [|s l IH]; cbn [overlapping overlapping_q]; [reflexivity|]. unfold overlaps.
+  replace (k * st s >? k * t) with (st s >? t) by nia.
+  replace ((k * st s <=? k * t) && (k * t <=? k * en s)) with ((st s <=? t) && (en s >=? t)) by nia.
+  now rewrite IH.
+Qed.
